@@ -18,7 +18,7 @@ META = {
     "require": {t: ["class:fact=cols", "class:fact=1col", "class:w=scalar", "class:w=tuple", "class:w=array",
                     "class:w=none", "class:ignore", "class:propagate", "class:xdtype=from_index", "class:xdtype=signed",
                     "class:ndims=0", "class:ndims>=3", "class:xshape=inferred", "class:fact=int",
-                    "class:cols+weights+propagate", "compared:ccube", "compared:xcube", "class:cell_counter_on_boundary", "class:more_than_1024_cells", "class:cells_of_very_unequal_weight",
+                    "class:cols+weights+propagate", "compared:ccube", "compared:xcube", "class:cell_counter_on_boundary", "class:more_than_1024_cells", "class:cells_of_very_unequal_weight", "class:evaluated_with_the_worker_pool_on", "class:via_calculate_with_untraced_function_objects",
                     "class:argument_objects_shared_between_calls", "format:nan", "format:tuple", "format:plain0"] for t in ("quick", "thorough")},
     "assumptions": ["tolerance 1e-9*max(1, sum|w*x|) (x20 for means); missing sets compared exactly",
                     "weights are >= 0 and never tiny-positive (< 0.05), so 'weight sum is zero' is unambiguous",
@@ -141,6 +141,18 @@ def judge(ctx, case):
     else:
         cubes.append(("xcube[nodims]", catii.xcube([]), ()))
 
+    # evaluation mode and entry point are part of the configuration as well: with several sub-cubes (extra axes) every
+    # third input is evaluated with the cube's worker pool switched on; every fourth goes through calculate([...])
+    # with aggregate objects built without their timing bookkeeping (index cube)
+    subcubes = int(numpy.prod(oracles.scaffold_shape(dense) or (1,)))
+    pooled_eval = subcubes >= 3 and (n + len(dense)) % 3 == 0
+    if pooled_eval:
+        for _, cube, _ in cubes:
+            cube.parallel = True
+        ctx.count("class:evaluated_with_the_worker_pool_on")
+    via = "calculate_untraced" if (n + 2 * len(dense)) % 4 == 1 else "shortcut"
+    if via != "shortcut":
+        ctx.count("class:via_calculate_with_untraced_function_objects")
     missing_rows = aggr.has_missing_rows(case)
     # the report format is part of the configuration: mostly NaN in place, sometimes the other two
     frng = numpy.random.default_rng(n * 31 + len(dense))
@@ -153,7 +165,7 @@ def judge(ctx, case):
             if rma == 0 and not isinstance(rma, tuple) and agg == "valid_count" and not case["ignore_missing"]:
                 rma = NaN      # the documented shortcut (see C04) is excluded
             ctx.count("format:" + ("nan" if rma is NaN else ("tuple" if isinstance(rma, tuple) else "plain0")))
-            res = aggr.call(cube, agg, case, rma, shared)
+            res = aggr.call(cube, agg, case, rma, shared, via=via)
             ctx.count("compared:" + name.split("[")[0])
             nt = len(dense) >= 1 and missing_rows and bool((~ref_m).any())
             ctx.evaluation({"c": {k: case[k] for k in ("dense", "commons", "shape", "fact", "weights", "ignore_missing")},
